@@ -327,7 +327,8 @@ Proof.
     intros b [<-|Hb']; [exact Hlt|]. specialize (Hx b Hb'). simpl in Hx. lia.
 Qed.
 
-(* M1 *)
+(* M1: a tree accepted by the validity checker satisfies the representation invariant (sorted keys, exact
+   /Limits everywhere, sizes within the split bound); the initial iterator is end() *)
 Lemma nn_init_valid_lemma : forall (t : Z) (s0 : nnode Z), wf_code Z nn_zcmp t s0 = 0 ->
   tree_inv t (st_root Z (nn_init Z s0)) /\ st_item Z (nn_init Z s0) < 0.
 Proof. intros t s0 H. split; [apply wf_code_iff; exact H|simpl; lia]. Qed.
